@@ -85,7 +85,9 @@ def mk_trains(fields):
 def kw_of(p):
     mrts, ri, mt, rc, ivf, a, b = p[:7]
     kw = {}
-    if mrts != 0:
+    if mrts == -1:
+        kw['MRTS'] = 'auto'
+    elif mrts != 0:
         kw['MRTS'] = float(mrts)
     if ri != 0:
         kw['RI'] = True
